@@ -42,6 +42,10 @@ type TreeSpec struct {
 	// slowly mined blocks and a branch of HeavyShort[1] (< [0]) quickly mined blocks on a network
 	// with non-trivial difficulty; the shorter one ends up sufficiently heavier.
 	HeavyShort [2]int `json:"heavyShort"`
+	// Twins: node ids of a shaped tree that get an ID twin (same header, another body) appended
+	// after the shape; RandTwins: number of twins added to random valid v2 blocks of a random tree
+	Twins     []int `json:"twins"`
+	RandTwins int   `json:"randTwins"`
 }
 
 func (ts TreeSpec) Build() *mat.Tree {
@@ -57,10 +61,13 @@ func (ts TreeSpec) Build() *mat.Tree {
 		for i, parent := range ts.Shape {
 			t.Add(parent, rng, ts.OpsPerBlk, ts.Scripts[i+2], i%3, ts.Bad[i+2])
 		}
+		for _, c := range ts.Twins {
+			t.AddTwin(c)
+		}
 		return t
 	}
 	if len(ts.WarmScripts) == 0 {
-		return mat.RandomTree(w, rng, mat.GenSpec{Blocks: ts.Blocks, ForkProb: ts.ForkProb, MaxLeaves: ts.MaxLeaves, BadBlocks: ts.BadBlocks, OpsPerBlk: ts.OpsPerBlk, Warmup: ts.Warmup})
+		return mat.RandomTree(w, rng, mat.GenSpec{Blocks: ts.Blocks, ForkProb: ts.ForkProb, MaxLeaves: ts.MaxLeaves, BadBlocks: ts.BadBlocks, OpsPerBlk: ts.OpsPerBlk, Warmup: ts.Warmup, Twins: ts.RandTwins})
 	}
 	// scripted linear prefix, then random growth on top
 	t := mat.NewTree(w)
@@ -68,7 +75,7 @@ func (ts TreeSpec) Build() *mat.Tree {
 	for _, sc := range ts.WarmScripts {
 		tip = t.Add(tip, rng, 0, sc, 0, "").ID
 	}
-	mat.GrowRandom(t, rng, mat.GenSpec{Blocks: ts.Blocks, ForkProb: ts.ForkProb, MaxLeaves: ts.MaxLeaves, BadBlocks: ts.BadBlocks, OpsPerBlk: ts.OpsPerBlk, Warmup: len(ts.WarmScripts)}, []int{tip})
+	mat.GrowRandom(t, rng, mat.GenSpec{Blocks: ts.Blocks, ForkProb: ts.ForkProb, MaxLeaves: ts.MaxLeaves, BadBlocks: ts.BadBlocks, OpsPerBlk: ts.OpsPerBlk, Warmup: len(ts.WarmScripts), Twins: ts.RandTwins}, []int{tip})
 	return t
 }
 
@@ -86,7 +93,7 @@ func smallSpecs(seed int64, perRegime, blocks int, sharedWindows bool) (out []Tr
 	for ri, r := range regimes {
 		for k := 0; k < perRegime; k++ {
 			out = append(out, TreeSpec{Seed: seed*1000 + int64(ri*100+k), Allow: r[0], Require: r[1], Final: r[2],
-				Blocks: blocks - 1, Warmup: 1, MaxLeaves: 3, BadBlocks: 2, OpsPerBlk: 2, ForkProb: 0.5})
+				Blocks: blocks - 1, Warmup: 1, MaxLeaves: 3, BadBlocks: 2, OpsPerBlk: 2, ForkProb: 0.5, RandTwins: min(ri, k%2)})
 		}
 	}
 	// scripted shapes: an invalid block at the end of / inside a heavier extension or fork, in every
@@ -94,19 +101,33 @@ func smallSpecs(seed int64, perRegime, blocks int, sharedWindows bool) (out []Tr
 	shapes := []struct {
 		shape []int
 		bad   map[int]string
+		twins []int
 	}{
-		{[]int{1, 2, 3, 4}, map[int]string{5: "tx-bad-signature"}},            // extension whose last block is invalid
-		{[]int{1, 2, 3, 4}, map[int]string{4: "v2-commitment"}},               // invalid block inside an extension
-		{[]int{1, 2, 3, 2, 5, 6}, map[int]string{7: "tx-bad-signature"}},      // heavier fork with an invalid tip
-		{[]int{1, 2, 3, 2, 5, 6}, map[int]string{6: "tx-double-spend"}},       // heavier fork with an invalid middle
-		{[]int{1, 2, 3, 2, 5, 6}, map[int]string{5: "payout-value"}},          // fork whose first block has a bad header
-		{[]int{1, 2, 3, 4, 2, 6}, map[int]string{5: "ts-future", 7: "nonce"}}, // future block on the main chain, bad header on the fork
-		{[]int{1, 2, 3, 2, 5, 6}, map[int]string{5: "tx-overspend"}},          // heavier fork, invalid first block, header-valid descendants
+		{[]int{1, 2, 3, 4}, map[int]string{5: "tx-bad-signature"}, nil},            // extension whose last block is invalid
+		{[]int{1, 2, 3, 4}, map[int]string{4: "v2-commitment"}, nil},               // invalid block inside an extension
+		{[]int{1, 2, 3, 2, 5, 6}, map[int]string{7: "tx-bad-signature"}, nil},      // heavier fork with an invalid tip
+		{[]int{1, 2, 3, 2, 5, 6}, map[int]string{6: "tx-double-spend"}, nil},       // heavier fork with an invalid middle
+		{[]int{1, 2, 3, 2, 5, 6}, map[int]string{5: "payout-value"}, nil},          // fork whose first block has a bad header
+		{[]int{1, 2, 3, 4, 2, 6}, map[int]string{5: "ts-future", 7: "nonce"}, nil}, // future block on the main chain, bad header on the fork
+		{[]int{1, 2, 3, 2, 5, 6}, map[int]string{5: "tx-overspend"}, nil},          // heavier fork, invalid first block, header-valid descendants
+		// ID twins: a second (invalid) body for the ID of a valid block -- the poisoned body may be
+		// delivered first and must be replaced by an honest re-delivery, never applied, never block the fork
+		{[]int{1, 2, 2, 4, 5}, nil, []int{4}}, // twin of the first block of the heavier fork
+		{[]int{1, 2, 3, 4}, nil, []int{5}},    // twin of the last block of an extension
+		// a block without any transaction whose commitment is wrong (only ValidateBlock's commitment check rejects it)
+		{[]int{1, 2, 3, 4}, map[int]string{5: "v2-empty-commitment"}, nil},
+		// thorough tier only (perRegime > 1)
+		{[]int{1, 2, 3, 2, 5, 6}, nil, []int{6, 7}}, // twins of the middle and tip of a heavier fork
+		{[]int{1, 2, 3, 4}, nil, []int{4, 5}},       // twins inside and at the end of an extension
+		{[]int{1, 2, 3, 2, 5, 6}, map[int]string{6: "v2-empty-commitment"}, nil},
 	}
 	for ri, r := range regimes {
 		for si, sh := range shapes {
 			if si >= perRegime*3 && ri != 2 {
 				break // every shape in the v2-only regime (also the validated path), the first ones elsewhere
+			}
+			if si >= 10 && perRegime < 2 {
+				break
 			}
 			bad := map[int]string{}
 			for k, v := range sh.bad {
@@ -118,7 +139,7 @@ func smallSpecs(seed int64, perRegime, blocks int, sharedWindows bool) (out []Tr
 				}
 			}
 			out = append(out, TreeSpec{Seed: seed*1000 + 500 + int64(ri*10+si), Allow: r[0], Require: r[1], Final: r[2],
-				OpsPerBlk: 2, Shape: sh.shape, Bad: bad})
+				OpsPerBlk: 2, Shape: sh.shape, Bad: bad, Twins: sh.twins})
 		}
 	}
 	if !sharedWindows {
@@ -304,6 +325,7 @@ func ledSets(l *ledJ) string {
 }
 
 type replayer struct {
+	cacheEvery int // > 0: path pi runs on CacheDB(MemDB) when pi % cacheEvery == 1
 	deep  bool // also compare all buckets with a linear twin after every completed call (C02)
 	res   *hx.Result
 	trees []*mat.Tree
@@ -385,8 +407,12 @@ func (r *replayer) runPath(pi int, path []edgeJ) {
 	}
 	ti := path[0].From.T - 1
 	t := r.trees[ti]
-	n := NewNode(t.W, true)
-	replay := map[string]any{"kind": "path", "path": path}
+	backend := "mem"
+	if r.cacheEvery > 0 && pi%r.cacheEvery == 1 {
+		backend = "cache" // durable family: every other path on a chain.CacheDB over the database
+	}
+	n := NewNodeOn(t.W, backend, true)
+	replay := map[string]any{"kind": "path", "path": path, "backend": backend}
 	notifBase := 0
 	for i := 0; i < len(path); {
 		e := path[i]
@@ -442,7 +468,7 @@ func (r *replayer) runPath(pi int, path []edgeJ) {
 			auto := false
 			ids := map[types.BlockID]int{}
 			for _, nd := range t.Nodes {
-				ids[nd.Block.ID()] = nd.ID
+				ids[nd.Block.ID()] = nd.Alias
 			}
 			for _, op := range ops {
 				if op.Op == "Apply" || op.Op == "Revert" {
@@ -461,7 +487,7 @@ func (r *replayer) runPath(pi int, path []edgeJ) {
 			if cls == "crash" {
 				// reopen from the last committed image
 				snap := n.DB.Snaps[len(n.DB.Snaps)-1]
-				nn, err := OpenNode(t.W, CopyDB(snap), true)
+				nn, err := n.Reopen(snap, true)
 				if err != nil {
 					r.res.Mismatch("replay:crash:reopen", fmt.Sprintf("reopen failed: %v", err), replay)
 					return
@@ -502,7 +528,7 @@ func (r *replayer) runPath(pi int, path []edgeJ) {
 		case "Crash":
 			// crash while idle
 			snap := n.DB.Snaps[len(n.DB.Snaps)-1]
-			nn, err := OpenNode(t.W, CopyDB(snap), true)
+			nn, err := n.Reopen(snap, true)
 			if err != nil {
 				r.res.Mismatch("replay:crash:reopen", fmt.Sprintf("reopen failed: %v", err), replay)
 				return
@@ -549,7 +575,7 @@ func (r *replayer) poll(n *RNode, ti int, e edgeJ, replay any) bool {
 	}
 	ids := map[types.BlockID]int{}
 	for _, nd := range t.Nodes {
-		ids[nd.Block.ID()] = nd.ID
+		ids[nd.Block.ID()] = nd.Alias
 	}
 	rus, aus, err := n.CM.UpdatesSince(idx, e.Act.Max)
 	gotErr := "ok"
@@ -578,7 +604,7 @@ func TestReplay(t *testing.T) {
 	if err := hx.ReadIn(&in); err != nil {
 		t.Fatal(err)
 	}
-	r := &replayer{res: res, deep: os.Getenv("VERIF_DEEP") == "1"}
+	r := &replayer{res: res, deep: os.Getenv("VERIF_DEEP") == "1", cacheEvery: 2}
 	for _, sp := range in.Specs {
 		tr := sp.Build()
 		tj, nm := tr.Abstract()
